@@ -91,6 +91,7 @@ func checkC08(w *World, r *Report) {
 	r.Explanation = "Decides three shape-visible clauses of C08 for every expression: (R08.1) the operator tables agree — the precedence switch puts or < and < comparison < additive < multiplicative < power with exactly the member sets of the specification, every operator with a precedence has an evaluation arm and vice versa, the parser's word-operator tests name exactly the first words of the table's word operators and assemble exactly its multi-word operators, and every symbol operator is tokenizable; (R08.2) in the evaluator the right operand of and/or is not evaluated when the left decides, and the conditional operator evaluates exactly one branch, on every path; (R08.3) in the tokenizers, print-tag content becomes a single NAME token without going through TokenizeExpression only under an identifier validator. (R08.4) the descent on a tighter operator is repeated (it lies on a cycle through the precedence comparison), (R08.5) the conditional operator is not consumed inside that descent, (R08.6) the operand of a unary operator is parsed as a primary — three necessary shape conditions of precedence climbing. NOT decided — and this is the heart of the property: that the precedence-climbing code implements the table (associativity and precedence of the parse result), unary-minus scope, numeric semantics; these are algorithmic/value-level facts outside static reach. (R08.7) a hand-written decimal formatter is reachable from a render root only through calls whose argument is confined to the digit count it provides for; (R08.8) the `in` / `not in` arms decide list membership through the equality routine of the == arm."
 	r.Explanation += " Rules added in later rounds: (R08.9) relational operators compare numerically first; (R08.10) shape of the precedence descent; (R08.11) string→integer conversions that become literal values use base ten. (R08.12) single-token shortcuts beside TokenizeExpression need an identifier test of the whole text; (R08.13) numeric equality uses no ordering."
 	r.Explanation += " Round 9: (R08.14) expression text and token values are pieces of the source, never rebuilt strings; (R08.15) an operator node is not replaced by its operand without reading the operator."
+	r.Explanation += " Round 10: (R08.12) quoted-literal shortcuts need a no-quote-inside test; (R08.16) filter-chain parsers return their operand wrapped."
 	r.RuleText = "obligation = one operator of one table / one evaluation site / one NAME shortcut; non-trivial = agreement and path obligations"
 	r.Trusted = []string{"the specification table is transcribed from the property statement into the checker (specClasses)"}
 
